@@ -1089,20 +1089,99 @@ func c09Base64(c *Ctx) {
 		if bt, isB := rt.Underlying().(*types.Basic); !isB || bt.Info()&types.IsString == 0 {
 			continue
 		}
-		args := []consteval.Val{consteval.C(0x00000102)}
-		if sig.Params().Len() == 2 {
-			if core.TypeID(sig.Params().At(1).Type()) != "proto/tink_go_proto.OutputPrefixType" || tinkPT == nil {
-				continue
-			}
-			args = append(args, consteval.Val{K: consteval.Const, C: tinkPT})
+		if sig.Params().Len() == 2 && (core.TypeID(sig.Params().At(1).Type()) != "proto/tink_go_proto.OutputPrefixType" || tinkPT == nil) {
+			continue
 		}
-		got, why := foldString(f, 0, args...)
-		if why != "" {
+		bad, folded := "", true
+		for _, pr := range kidProbes {
+			args := []consteval.Val{consteval.C(pr.id)}
+			if sig.Params().Len() == 2 {
+				args = append(args, consteval.Val{K: consteval.Const, C: tinkPT})
+			}
+			got, why := foldString(f, 0, args...)
+			if why != "" {
+				folded = false
+				break
+			}
+			if got != pr.kid {
+				bad = fmt.Sprintf("folded on key ID %#08x the kid is %q; base64url without padding of the four big-endian bytes is %q", pr.id, got, pr.kid)
+			}
+		}
+		if !folded {
 			continue
 		}
 		nVal++
-		r.Check(got == "AAABAg", "C09.kid", "C09.kid/value/"+core.FuncID(f), p.FuncPos(f),
-			fmt.Sprintf("folded on key ID 0x00000102 the kid is %q; base64url without padding of the four big-endian bytes is \"AAABAg\"", got), "kid(0x00000102) = \"AAABAg\"")
+		r.Check(bad == "", "C09.kid", "C09.kid/value/"+core.FuncID(f), p.FuncPos(f), bad, "kid(0x00000102) = \"AAABAg\", kid(0xfffffffe) = \"_____g\"")
+	}
+	// by value: the key types' computeKID under the Base64EncodedKeyIDAsKID strategy
+	for _, f := range p.SortedFuncs(core.Product) {
+		rel := core.Rel(core.PkgOf(f))
+		if !isJWTPkg(rel) || f.Name() != "computeKID" || f.Parent() != nil || f.Signature.Results().Len() < 1 {
+			continue
+		}
+		strat, okS := constOf(p, rel, "Base64EncodedKeyIDAsKID")
+		if !okS {
+			continue
+		}
+		sv := consteval.Val{K: consteval.Const, C: strat}
+		var args []consteval.Val
+		okArgs := true
+		for _, prm := range f.Params {
+			switch t := prm.Type().Underlying().(type) {
+			case *types.Basic:
+				switch {
+				case t.Info()&types.IsString != 0:
+					args = append(args, consteval.S(""))
+				case t.Kind() == types.Bool:
+					args = append(args, consteval.B(false))
+				case t.Kind() == types.Uint32:
+					args = append(args, consteval.Val{K: consteval.Unknown}) // placeholder: the probe
+				case t.Info()&types.IsInteger != 0:
+					args = append(args, sv) // the strategy itself
+				default:
+					okArgs = false
+				}
+			case *types.Pointer:
+				if bt, isB := t.Elem().Underlying().(*types.Basic); isB && bt.Info()&types.IsString != 0 {
+					args = append(args, consteval.Val{K: consteval.Nil}) // no custom kid
+				} else {
+					args = append(args, consteval.Val{K: consteval.Ref})
+				}
+			default:
+				okArgs = false
+			}
+		}
+		if !okArgs {
+			continue
+		}
+		env := bindFieldLoadsByName(f, map[string]consteval.Val{"kidStrategy": sv})
+		allInstrs(f, func(ins ssa.Instruction) {
+			if call, ok := ins.(*ssa.Call); ok && strings.HasSuffix(guard.CalleeName(&call.Call), ").KIDStrategy") {
+				env[call] = sv
+			}
+		})
+		bad, folded := "", true
+		for _, pr := range kidProbes {
+			a2 := append([]consteval.Val{}, args...)
+			for i, prm := range f.Params {
+				if isUint32(prm.Type()) {
+					a2[i] = consteval.C(pr.id)
+				}
+			}
+			got, why := foldStringEnv(f, 0, env, a2...)
+			if why != "" {
+				folded = false
+				break
+			}
+			if got != pr.kid {
+				bad = fmt.Sprintf("folded on key ID %#08x under Base64EncodedKeyIDAsKID the kid is %q; base64url without padding of the four big-endian bytes is %q", pr.id, got, pr.kid)
+			}
+		}
+		if !folded {
+			continue
+		}
+		nVal++
+		r.Check(bad == "", "C09.kid", "C09.kid/value/"+core.FuncID(f), p.FuncPos(f), bad, "kid(0x00000102) = \"AAABAg\", kid(0xfffffffe) = \"_____g\"")
 	}
 	r.Counts["kid_encoders"], r.Counts["kid_helpers_folded"] = nKid, nVal
 	r.Min("C09.kid", 6)
@@ -1364,3 +1443,10 @@ func c09StrictDecode(c *Ctx) {
 	r.Counts["base64_decode_sites"] = n
 	r.Min("C09.strictdecode", 2)
 }
+
+// kidProbes: key IDs with leading zero bytes, and with 6-bit groups 62/63
+// (where the URL-safe and the standard alphabet differ).
+var kidProbes = []struct {
+	id  int64
+	kid string
+}{{0x00000102, "AAABAg"}, {0xfffffffe, "_____g"}}
